@@ -239,15 +239,23 @@ func c01Run(id int, strat string, n, cpb int, progs [][]c01Op, mk func(nthreads 
 	var steps []vsStepRec
 	finished := false
 	if fixed != nil {
+		// explicit schedule; an entry 1000+t means "run thread t until it has finished"
 		k := 0
 		steps, finished = vsDrive(threads, func(al []int, all, last int, lastEv *vsEvent) int {
-			if k < len(fixed) {
+			for k < len(fixed) {
+				e := fixed[k]
+				if e >= 1000 {
+					if e-1000 < len(threads) && !threads[e-1000].done {
+						return e - 1000
+					}
+					k++
+					continue
+				}
 				k++
-				return fixed[k-1]
+				return e
 			}
 			return -1
-		}, len(fixed)+1, after)
-		_ = finished
+		}, 200000, after)
 		finished = true
 	} else {
 		steps, finished = vsDrive(threads, mk(len(threads)), 6000, after)
